@@ -216,19 +216,19 @@ theorem wrapRest_berG (pf : Profile) (base : Ty) (v : Val) (dm : Bool) :
           rw [hshape]; simp only [BerG]; exact ⟨fun _ => sameTag_wire t true, hb⟩)
         simpa [List.reverse_cons, List.append_assoc] using this
 
-theorem wrapRest_allDef : ∀ (ts : List Tag) (y x : TLV), wrapRest true ts y = .ok x →
-    y.allDef = true → x.allDef = true
+theorem wrapRest_lenForm (dm : Bool) : ∀ (ts : List Tag) (y x : TLV), wrapRest dm ts y = .ok x →
+    y.lenForm dm = true → x.lenForm dm = true
   | [], y, x, h, hy => by
       simp only [wrapRest, Except.ok.injEq] at h; subst h; exact hy
   | t :: ts, y, x, h, hy => by
       simp only [wrapRest] at h
-      cases hn : consNode t (!true) [y] with
+      cases hn : consNode t (!dm) [y] with
       | error e => rw [hn] at h; simp at h
       | ok y' =>
         rw [hn] at h
         simp only at h
-        obtain ⟨_, hd, hshape⟩ := consNode_tag t (!true) [y] y' hn
-        exact wrapRest_allDef ts y' x h (by rw [hshape]; simp [TLV.allDef, allDefL, hy])
+        obtain ⟨_, hd, hshape⟩ := consNode_tag t (!dm) [y] y' hn
+        exact wrapRest_lenForm dm ts y' x h (by rw [hshape]; simp [TLV.lenForm, lenFormL, hy])
 
 theorem WFs_iff : ∀ (cs : List TLV), WFs cs ↔ ∀ c ∈ cs, c.WF
   | [] => by simp [WFs]
@@ -241,6 +241,9 @@ theorem NoEooL_iff : ∀ (cs : List TLV), NoEooL cs ↔ ∀ c ∈ cs, NotEoo c.s
 theorem allDefL_iff : ∀ (cs : List TLV), allDefL cs = true ↔ ∀ c ∈ cs, c.allDef = true
   | [] => by simp [allDefL]
   | c :: cs => by simp [allDefL, allDefL_iff cs]
+theorem lenFormL_iff (dm : Bool) : ∀ (cs : List TLV), lenFormL dm cs = true ↔ ∀ c ∈ cs, c.lenForm dm = true
+  | [] => by simp [lenFormL]
+  | c :: cs => by simp [lenFormL, lenFormL_iff dm cs]
 
 theorem serList_ne_nil (cs : List TLV) (hw : WFs cs) (hne : cs ≠ []) : (serList cs).isEmpty = false := by
   cases cs with
@@ -336,13 +339,13 @@ structure EncRegion (cfg : EncCfg) (pf : Profile) (mc : Nat) : Prop where
 /-- one encoded item is the serialisation of a well-formed element that is an encoding of the
     value in the sense of the rules -/
 def GoodS (pf : Profile) (dm : Bool) (t : Ty) (v : Val) (b : Bytes) : Prop :=
-  ∃ x : TLV, b = x.ser ∧ x.WF ∧ NotEoo x.ser ∧ (dm = true → x.allDef = true) ∧ IsBer pf t v x
+  ∃ x : TLV, b = x.ser ∧ x.WF ∧ NotEoo x.ser ∧ x.lenForm dm = true ∧ IsBer pf t v x
 
 def ContentS (cfg : EncCfg) (pf : Profile) (dm om : Bool) (t : Ty) (v : Val) (sub : Bytes)
     (ic : Bool) : Prop :=
   (ic = false → (∃ p, t.base = .prim p) ∧ ∀ hd tg, IsBody pf t.base v (.prim hd tg sub)) ∧
   (ic = true → supportsIndef cfg t.base = true ∧
-      ∃ cs, sub = serList cs ∧ WFs cs ∧ NoEooL cs ∧ (dm = true → allDefL cs = true) ∧
+      ∃ cs, sub = serList cs ∧ WFs cs ∧ NoEooL cs ∧ lenFormL dm cs = true ∧
         (∀ hd tg indef, IsBody pf t.base v (.cons hd tg indef cs)) ∧
         (t.tags = [] → ∃ x, cs = [x] ∧ IsBer pf t v x) ∧
         (emptyC om t v = false → cs ≠ []))
@@ -369,7 +372,7 @@ theorem item_of_contentS (cfg : EncCfg) (pf : Profile) (dm om : Bool) (mc : Nat)
       obtain ⟨_, cs, hsub, hw, hne, hdef, _, hx, _⟩ := hc.2 rfl
       obtain ⟨x, rfl, hber⟩ := hx htags
       exact ⟨x, by rw [hsub, serList_single], hw.1, hne.1,
-        fun hd => by have := hdef hd; simp only [allDefL, Bool.and_eq_true] at this; exact this.1, hber⟩
+        by have := hdef; simp only [lenFormL, Bool.and_eq_true] at this; exact this.1, hber⟩
   | cons t0 ts =>
     rw [htags] at h
     simp only [List.isEmpty_cons, Bool.false_eq_true, if_false] at h
@@ -419,8 +422,7 @@ theorem item_of_contentS (cfg : EncCfg) (pf : Profile) (dm om : Bool) (mc : Nat)
             · exact Or.inr (Or.inl h'))
           obtain ⟨h1, h2, _, _⟩ := wrapRest_good {} t.base dm ts y x hts hyw hyn hx
           refine ⟨x, h.symm, h1, h2, ?_, hG x ?_⟩
-          · intro hdm; subst hdm
-            exact wrapRest_allDef ts y x hx (by rw [hyshape]; rfl)
+          · exact wrapRest_lenForm dm ts y x hx (by rw [hyshape]; rfl)
           · apply wrapRest_berG pf t.base v dm ts y x hx t0 []
             rw [hyshape]
             simp only [BerG, TLV.tag]
@@ -444,8 +446,7 @@ theorem item_of_contentS (cfg : EncCfg) (pf : Profile) (dm om : Bool) (mc : Nat)
           have hyn : NotEoo y.ser := notEoo_of_tag y hyw (by rw [hytag]; right; right; simp [wireTag])
           obtain ⟨h1, h2, _, _⟩ := wrapRest_good {} t.base dm ts y x hts hyw hyn hx
           refine ⟨x, h.symm, h1, h2, ?_, hG x ?_⟩
-          · intro hdm; subst hdm
-            exact wrapRest_allDef ts y x hx (by rw [hyshape]; simp [TLV.allDef, hdef rfl])
+          · exact wrapRest_lenForm dm ts y x hx (by rw [hyshape]; simp [TLV.lenForm, hdef])
           · apply wrapRest_berG pf t.base v dm ts y x hx t0 []
             rw [hyshape]
             simp only [BerG, TLV.tag]
@@ -468,7 +469,7 @@ theorem elems_goodS (pf : Profile) (dm : Bool) (t : Ty) (f : Val → Except Err 
     ∀ (vs : List Val) (bs : List Bytes),
       (∀ v b, v ∈ vs → f v = .ok b → GoodS pf dm t v b) → allOk (vs.map f) = .ok bs →
       ∃ ps : List (Val × TLV), ps.map (·.1) = vs ∧ bs = ps.map (·.2.ser) ∧
-        ∀ p ∈ ps, p.2.WF ∧ NotEoo p.2.ser ∧ (dm = true → p.2.allDef = true) ∧ IsBer pf t p.1 p.2
+        ∀ p ∈ ps, p.2.WF ∧ NotEoo p.2.ser ∧ p.2.lenForm dm = true ∧ IsBer pf t p.1 p.2
   | [], bs, _, h => by
       simp only [List.map_nil, allOk, Except.ok.injEq] at h
       subst h
@@ -536,10 +537,10 @@ theorem chunkBytes_ne_nil (n fuel : Nat) (bs : Bytes) (hb : bs ≠ []) (hf : 0 <
     | nil => exact absurd rfl hb
     | cons b r => simp [chunkBytes]
 
-theorem allDef_prim_nodes (cs : List TLV) (n : Nat) (tag : Tag) (frags : List Bytes) (hl : cs.length = n)
+theorem allDef_prim_nodes (dm : Bool) (cs : List TLV) (n : Nat) (tag : Tag) (frags : List Bytes) (hl : cs.length = n)
     (h : ∀ i (hi : i < cs.length) (hj : i < frags.length), ∃ hd, cs[i] = .prim hd tag frags[i])
-    (hn : frags.length = n) : allDefL cs = true := by
-  rw [allDefL_iff]
+    (hn : frags.length = n) : lenFormL dm cs = true := by
+  rw [lenFormL_iff]
   intro c hc
   obtain ⟨i, hi, rfl⟩ := List.getElem_of_mem hc
   obtain ⟨hd, he⟩ := h i hi (by omega)
@@ -570,12 +571,12 @@ theorem contentS_prim {cfg : EncCfg} {pf : Profile} {dm om : Bool} {p : PrimTy} 
 /-! ### the encoders write encodings -/
 
 /-- properties of every child the encoder wrote -/
-def ChildOk (dm : Bool) (c : TLV) : Prop := c.WF ∧ NotEoo c.ser ∧ (dm = true → c.allDef = true)
+def ChildOk (dm : Bool) (c : TLV) : Prop := c.WF ∧ NotEoo c.ser ∧ c.lenForm dm = true
 
 theorem children_ok {dm : Bool} {cs : List TLV} (h : ∀ c ∈ cs, ChildOk dm c) :
-    WFs cs ∧ NoEooL cs ∧ (dm = true → allDefL cs = true) :=
+    WFs cs ∧ NoEooL cs ∧ lenFormL dm cs = true :=
   ⟨(WFs_iff cs).mpr (fun c hc => (h c hc).1), (NoEooL_iff cs).mpr (fun c hc => (h c hc).2.1),
-   fun hd => (allDefL_iff cs).mpr (fun c hc => (h c hc).2.2 hd)⟩
+   (lenFormL_iff dm cs).mpr (fun c hc => (h c hc).2.2)⟩
 
 abbrev mkO (dm : Bool) (mc : Nat) (f : Bool) : EncOpts := { defMode := dm, maxChunk := mc, ifNotEmpty := f }
 
@@ -613,7 +614,7 @@ theorem set_sorted_content (cfg : EncCfg) (pf : Profile) (dm : Bool) (fs : Field
 theorem setOf_sorted_content (cfg : EncCfg) (pf : Profile) (dm : Bool) (t : Ty) (vs : List Val)
     (ps : List (Val × TLV)) (bs : List Bytes)
     (h1 : ps.map (·.1) = vs) (h2 : bs = ps.map (·.2.ser))
-    (h3 : ∀ p ∈ ps, p.2.WF ∧ NotEoo p.2.ser ∧ (dm = true → p.2.allDef = true) ∧ IsBer pf t p.1 p.2) :
+    (h3 : ∀ p ∈ ps, p.2.WF ∧ NotEoo p.2.ser ∧ p.2.lenForm dm = true ∧ IsBer pf t p.1 p.2) :
     ContentS cfg pf dm cfg.seqOmitEmpty (.setOf t) (.seqOf vs)
       ((if cfg.sortSetOf then sortSetOfChunks bs else bs).flatten) true := by
   subst h2
@@ -783,7 +784,7 @@ theorem rt_contentS : ∀ (t : Ty) (v : Val) (sub : Bytes) (ic : Bool) (f : Bool
                     exact ⟨hd, by simpa [PrimTy.univNum] using he⟩)
                 rwa [chunkBits_flatten (mc * 8) (by omega) bs.length bs (Nat.le_refl _)] at this
               refine ⟨fun hic => by simp at hic, fun _ => ⟨rfl, cs, h1, h2, h3, ?_, ?_, ?_, fun _ => hcsne⟩⟩
-              · intro _; exact allDef_prim_nodes cs _ _ _ rfl h5 h4.symm
+              · exact allDef_prim_nodes dm cs _ _ _ rfl h5 h4.symm
               · intro hd tg indef
                 exact .bitsSeg hseg hcsne hsegs
               · intro hh; simp [Ty.tags] at hh
@@ -823,7 +824,7 @@ theorem rt_contentS : ∀ (t : Ty) (v : Val) (sub : Bytes) (ic : Bool) (f : Bool
                 have := isSegs_prims 4 cs (chunkBytes mc bs.length bs) h4 h5
                 rwa [chunkBytes_flatten mc (by omega) bs.length bs (Nat.le_refl _)] at this
               refine ⟨fun hic => by simp at hic, fun _ => ⟨rfl, cs, h1, h2, h3, ?_, ?_, ?_, fun _ => hcsne⟩⟩
-              · intro _; exact allDef_prim_nodes cs _ _ _ rfl h5 h4.symm
+              · exact allDef_prim_nodes dm cs _ _ _ rfl h5 h4.symm
               · intro hd tg indef
                 exact .strSeg hseg hsegs
               · intro hh; simp [Ty.tags] at hh
@@ -914,7 +915,7 @@ theorem rt_contentS : ∀ (t : Ty) (v : Val) (sub : Bytes) (ic : Bool) (f : Bool
             simpa using hcond.2
           subst hvs
           refine ⟨fun hic => by simp at hic, fun _ => ⟨rfl, [], by simp [serList], trivial, trivial,
-            fun _ => rfl, ?_, ?_, ?_⟩⟩
+            rfl, ?_, ?_, ?_⟩⟩
           · intro hd tg indef; exact .seqOf .nil
           · intro hh; simp [Ty.tags] at hh
           · intro he; simp [emptyC] at he
@@ -981,7 +982,7 @@ theorem rt_contentS : ∀ (t : Ty) (v : Val) (sub : Bytes) (ic : Bool) (f : Bool
           obtain ⟨x, hbx, hxw, hxn, hxd, hal⟩ := rt_altS fs i w b f hf hr hw.1.1 ht
             (by simpa [noE3] using hn) (by simpa [emptyC] using hE) hb
           refine ⟨fun hic => by simp at hic, fun _ => ⟨rfl, [x], by simp [serList_single, hbx],
-            ⟨hxw, trivial⟩, ⟨hxn, trivial⟩, fun hd => by simp [allDefL, hxd hd], ?_, ?_, fun _ => by simp⟩⟩
+            ⟨hxw, trivial⟩, ⟨hxn, trivial⟩, by simp [lenFormL, hxd], ?_, ?_, fun _ => by simp⟩⟩
           · intro hd tg indef; exact .choice hal
           · intro _; exact ⟨x, rfl, .choice hal⟩
 theorem rt_fieldsS : ∀ (fs : Fields) (vs : List Val) (b : Bytes) (f : Bool),
@@ -1133,7 +1134,7 @@ theorem rt_altS : ∀ (fs : Fields) (i : Nat) (v : Val) (b : Bytes) (f : Bool),
     Fields.reg true cfg dm fs = true → Fields.WF fs = true → HasAlt fs i v = true →
     noE3Alt cfg.seqOmitEmpty fs i v = true → (f = true → emptyAlt cfg.seqOmitEmpty fs i v = false) →
     encAlt cfg (mkO dm mc f) fs i v = .ok b →
-    ∃ x : TLV, b = x.ser ∧ x.WF ∧ NotEoo x.ser ∧ (dm = true → x.allDef = true) ∧ IsAlt pf fs i v x
+    ∃ x : TLV, b = x.ser ∧ x.WF ∧ NotEoo x.ser ∧ x.lenForm dm = true ∧ IsAlt pf fs i v x
   | .nil, _, _, _, _, _, _, _, ha, _, _, _ => by simp [HasAlt] at ha
   | .cons kd t rest, 0, v, b, f, hfl, hr, hw, ha, hn, hE, h => by
       simp only [Fields.reg, Bool.and_eq_true] at hr
